@@ -1,8 +1,8 @@
-From LC Require Export Val CheckPoints.
+From LC Require Export Val CheckPoints CheckPointsChecked.
 Open Scope N_scope.
 
 Definition run_add_check_points (interval first : N) (cur : list hash) (last_proved start : N) (new : list hash) : val :=
-  match add_check_points interval (mkCps first cur) last_proved start new with
+  match add_check_points_chk interval (mkCps first cur) last_proved start new with
   | Ok (c, next) => VL [VN 0; vlist VN (cp_list c); vopt VN next]
   | Err code => VL [VN 1; VN code]
   | Panic _ => VL [VN 3]
